@@ -10,8 +10,9 @@ CONSTANTS
   GuardAlloc = TRUE
   PageSizes <- PS4
   MaxResp = 3
-  MaxCalls = 4
+  MaxCalls = 3
   Families <- AllFamilies
+  SizesForAll = FALSE
   Level = "full"
 INVARIANT Props
-PROPERTY AlwaysReturns
+PROPERTY RankDecreases
